@@ -44,7 +44,7 @@ fn sqlite_feature(text: &str) -> &'static str {
 /// the first dialect-specific construct present in a rendered text (classifies read-back failures)
 fn feature(text: &str) -> &'static str {
     let up = text.to_uppercase();
-    for (kw, name) in [("TOP (", "top"), ("CONVERT(", "convert"), ("FLOAT(", "float-call"), ("STRING(", "string-call"), ("MEAN(", "mean"), ("VAR(", "var"), ("STD(", "std"), ("STDDEV", "stddev"), ("VARIANCE", "variance"), ("FIRST(", "first"), ("LAST(", "last"), ("MD5(", "md5"), ("HASHBYTES", "hashbytes"),
+    for (kw, name) in [("CHECKSUM(", "checksum"), ("TOP (", "top"), ("CONVERT(", "convert"), ("FLOAT(", "float-call"), ("STRING(", "string-call"), ("MEAN(", "mean"), ("VAR(", "var"), ("STD(", "std"), ("STDDEV", "stddev"), ("VARIANCE", "variance"), ("FIRST(", "first"), ("LAST(", "last"), ("MD5(", "md5"), ("HASHBYTES", "hashbytes"),
                        ("GREATEST(", "greatest"), ("LEAST(", "least"), ("(VALUES", "values"), ("CAST(", "cast"), ("SAFE_CAST", "safe-cast"), ("UNNEST", "unnest"), ("FULL JOIN", "full-join"), ("CASE ", "case"), ("COALESCE(", "coalesce"), ("OFFSET", "offset"), ("LIMIT", "limit")] {
         if up.contains(kw) { return name; }
     }
@@ -112,7 +112,7 @@ pub fn eval(case: &J) -> Outcome {
             Some(Ok(Ok(r2))) => {
                 let sig2 = schema_sig(&r2);
                 if sig.iter().map(|x| &x.0).collect::<Vec<_>>() != sig2.iter().map(|x| &x.0).collect::<Vec<_>>() { out.fail(&format!("C17/dialect/{d}/readback-names/{shape}"), format!("{sql}: columns {:?} come back from {d} as {:?} ({text})", sig.iter().map(|x| &x.0).collect::<Vec<_>>(), sig2.iter().map(|x| &x.0).collect::<Vec<_>>())); }
-                else if sig != sig2 { let dd = sig.iter().zip(sig2.iter()).find(|(a, b)| a != b).unwrap(); out.fail(&format!("C17/dialect/{d}/readback-types/{shape}"), format!("{sql}: column `{}` has type {} but {} after {d} render + read", dd.0 .0, dd.0 .1, dd.1 .1)); }
+                else if sig != sig2 { let dd = sig.iter().zip(sig2.iter()).find(|(a, b)| a != b).unwrap(); out.fail(&format!("C17/dialect/{d}/readback-types/{}", if crate::s_determ::same_modulo_type_structure(&rel, &r2) { "type-structure" } else { shape }), format!("{sql}: column `{}` has type {} but {} after {d} render + read", dd.0 .0, dd.0 .1, dd.1 .1)); }
                 else { out.tag(&format!("ok={d}")); }
             }
         }
@@ -124,6 +124,7 @@ pub fn eval(case: &J) -> Outcome {
             let rdb = data.load();
             let reference = match rdb.query(&sql) { Ok(r) => { out.tag("reference=original-text"); Ok(r) } Err(_) => rdb.run(&rel) };
             match (pdb.query(&text), reference) {
+                (Ok(_), Ok(_)) if sql.contains("random()") => { out.tag("sqlite-executed"); out.tag("uses-random"); }   // two executions differ by construction
                 (Ok(a), Ok(b)) => { let ord = case["ordered"].as_bool().unwrap_or(false); if rows_key(&a.1, ord) != rows_key(&b.1, ord) { out.fail(&format!("C17/dialect/sqlite/different-rows/{shape}"), format!("{sql}: {text} returns {:?}, reference {:?}", a.1.iter().take(4).collect::<Vec<_>>(), b.1.iter().take(4).collect::<Vec<_>>())); } else { out.tag("sqlite-executed"); } }
                 (Err(e), _) => out.fail(&format!("C17/dialect/sqlite/not-executable/{}", sqlite_feature(&text)), format!("{sql}: rendered for SQLite as {text}: {e}")),
                 _ => {}
